@@ -8,6 +8,6 @@ rsync -a --exclude .git /repo/ "$tmp/repo/"
 export GOFLAGS=-mod=mod GOPROXY=off GOSUMDB=off GOTOOLCHAIN=local GOWORK=off PATH=/opt/veriftools/go1.26.8/bin:$PATH
 for P in "$@"; do
   out=$(/verif/bin/kcpverif -prop "$P" -tier quick -repo "$tmp/repo" -verif /verif -evidence "$tmp/ev" 2>&1); rc=$?
-  echo "== $P exit=$rc"; echo "$out" | grep -v "^VIOLATION\|^    witness" | grep "\[C" | cut -c1-330 | head -${MAXL:-6}
+  echo "== $P exit=$rc"; echo "$out" | grep -v "^VIOLATION\|^    witness" | grep "\[C\|BROKEN\|ANCHOR\|panic\|UNDECIDED" | cut -c1-330 | head -${MAXL:-6}
 done
 rm -rf "$tmp"
